@@ -45,7 +45,7 @@ Qed.
 Definition mstate (s : state) : ms := tracks ms0 (trace s).
 Arguments mstate s : simpl never.
 Definition emits (os : list oev) (s : state) : state :=
-  mkSt (s_srv s) (s_fired s) (s_lost s) (s_armed s) (s_queue s) (s_conns s) (rev os ++ s_out s).
+  mkSt (s_srv s) (s_fired s) (s_lost s) (s_armed s) (s_sigarm s) (s_queue s) (s_conns s) (rev os ++ s_out s).
 Definition Good (chk : ms -> oev -> bool) (s : state) : Prop := mon_from chk ms0 (trace s) = true.
 
 Lemma tracks_app : forall a b m, tracks m (a ++ b) = tracks (tracks m a) b.
@@ -133,7 +133,7 @@ Definition NoSilentK (g : cfg) (s : state) : Prop :=
   kind_eqb (c_kind x) KRaw = false /\ kind_eqb (c_kind x) KCut = false.
 
 Definition Full (ns : bool) (g : cfg) (q : list qent) (s : state) : Prop :=
-  Rel g q s (mstate s) /\ Good chk09 s /\ (ns = true -> NoSilentK g s /\ Good chk07 s).
+  Rel g q s (mstate s) /\ Good chk09 s /\ (ns = true -> NoSilentK g s /\ Good chk07_strict s).
 
 (* what a settle establishes *)
 Record Quiet (g : cfg) (s : state) : Prop := mkQuiet {
@@ -190,7 +190,7 @@ Lemma full_conn : forall ns g q s c x f fy os,
   Full ns g q s -> get c s = Some x ->
   ConnOnly c fy (mstate s) (tracks (mstate s) os) ->
   mon_from chk09 (mstate s) os = true ->
-  (ns = true -> mon_from chk07 (mstate s) os = true) ->
+  (ns = true -> mon_from chk07_strict (mstate s) os = true) ->
   Rc g (srv_done s) (k_cause (mstate s)) (f x) (fy (k_conns (mstate s) c)) ->
   (c_ph (f x) = Queued -> c_ph x = Queued) ->
   (s_fired s = true -> c_cut (f x) = true -> c_cut x = true) ->
@@ -552,7 +552,7 @@ Qed.
 (* an event that leaves the counters alone *)
 Lemma full_emit_plain : forall ns g q s o,
   Full ns g q s -> track (mstate s) o = mstate s ->
-  chk09 (mstate s) o = true -> (ns = true -> chk07 (mstate s) o = true) ->
+  chk09 (mstate s) o = true -> (ns = true -> chk07_strict (mstate s) o = true) ->
   Full ns g q (emit o s).
 Proof.
   intros ns g q s o [R [G9 G7]] Ht H9 H7. split; [| split].
@@ -623,6 +623,55 @@ Proof.
     intros _ c x Hg. apply (HQ c); auto. apply in_seq. apply get_some_lt in Hg. lia.
 Qed.
 
+Lemma rc_cause_any : forall g sd cz x y, Rc g sd cz x y -> Rc g sd true x y.
+Proof. intros g sd cz x y []. constructor; auto. Qed.
+
+(* the signal resolves (ESignal, or the armed make-service inside the accept loop) *)
+Lemma full_fire : forall ns g q s,
+  Full ns g q s -> g_graceful g = true -> s_fired s = false ->
+  Full ns g q (emit OSignal (set_fired true s)).
+Proof.
+  intros ns g q s F Hg Hnf. destruct F as [R [G9 G7]].
+  assert (Hm : mstate (emit OSignal (set_fired true s)) = track (mstate s) OSignal).
+  { rewrite mstate_emit. reflexivity. }
+  destruct R. split; [| split].
+  - rewrite Hm. constructor; cbn; auto.
+    + intros c x Hn. eapply rc_cause_any. apply g_conns0. exact Hn.
+    + intros _ c x Hn Hcut. specialize (g_conns0 c x Hn). rc_start g_conns0.
+      rewrite g_fired0, Hnf. unfold idle_cm. rewrite Rfault. destruct (c_faulty x) eqn:Hfa; cbn; [now rewrite !andb_false_r |].
+      specialize (Rbegun eq_refl). specialize (Rresp eq_refl). rewrite Hcut in Rbegun. cbn in Rbegun.
+      destruct (Nat.eqb_spec (m_begun (k_conns (mstate s) c)) (m_resp (k_conns (mstate s) c))); [lia |].
+      now rewrite !andb_false_r.
+  - apply good_emit; [eapply good_out; [| exact G9]; reflexivity | reflexivity].
+  - intros Hns. destruct (G7 Hns) as [NS G]. split; [exact NS |].
+    apply good_emit; [eapply good_out; [| exact G]; reflexivity | reflexivity].
+Qed.
+
+Lemma full_set_sigarm : forall ns g q v s, Full ns g q s -> Full ns g q (set_sigarm v s).
+Proof.
+  intros ns g q v s [R G]. split; [| exact G]. destruct R. constructor; auto.
+Qed.
+
+Lemma full_make_signal : forall ns g q s, Full ns g q s -> Full ns g q (make_signal g s).
+Proof.
+  intros ns g q s F. unfold make_signal. destruct (s_sigarm s) as [[|k]|]; auto.
+  - change (s_fired (set_sigarm None s)) with (s_fired s).
+    destruct (g_graceful g && negb (s_fired s)) eqn:Hc.
+    + apply andb_prop in Hc. destruct Hc as [Hg Hnf]. apply negb_true_iff in Hnf.
+      apply full_fire; auto. now apply full_set_sigarm.
+    + now apply full_set_sigarm.
+  - now apply full_set_sigarm.
+Qed.
+
+Lemma make_signal_same : forall g s,
+  s_srv (make_signal g s) = s_srv s /\ s_lost (make_signal g s) = s_lost s
+  /\ s_armed (make_signal g s) = s_armed s /\ s_conns (make_signal g s) = s_conns s.
+Proof.
+  intros. unfold make_signal. destruct (s_sigarm s) as [[|k]|]; auto.
+  change (s_fired (set_sigarm None s)) with (s_fired s).
+  destruct (g_graceful g && negb (s_fired s)); auto.
+Qed.
+
 (* ------------------------------------------------------------------ the accept loop *)
 Lemma rc_spawn : forall g sd cz x y,
   Rc g sd cz x y -> c_ph x = Queued -> Rc g sd cz (spawn_ph g x) (cm_sp (cm_acc y)).
@@ -639,23 +688,59 @@ Proof.
   destruct (is_auto (g_proto g)); [destruct (kind_eqb (c_kind x) KH2) |]; discriminate.
 Qed.
 
+Lemma accept_loop_unfold : forall g q s,
+  accept_loop g q s =
+  if g_graceful g && s_fired s then finish true (set_queue q s)
+  else
+  match q with
+  | [] =>
+      if s_lost s then finish false (emit OAcceptErr (set_queue [] s))
+      else set_srv SAccepting (set_queue [] s)
+  | QDead :: q' => accept_loop g q' s
+  | QLive c :: q' =>
+      match get c s with
+      | Some x =>
+          match c_ph x with
+          | Queued =>
+              let s1 := emit (OAccept c) s in
+              if s_armed s1
+              then finish false (set_queue q' (set_armed false (modc c (w_ph Dropped) s1)))
+              else accept_loop g q' (make_signal g (emit (OSpawn c) (modc c (spawn_ph g) s1)))
+          | _ => accept_loop g q' s
+          end
+      | None => accept_loop g q' s
+      end
+  end.
+Proof. intros. destruct q; reflexivity. Qed.
+
 Lemma accept_loop_spec : forall ns g q s,
-  Full ns g q s -> s_fired s = false -> srv_done s = false ->
+  Full ns g q s -> srv_done s = false ->
   (forall q0, Full ns g q0 (accept_loop g q s))
-  /\ s_fired (accept_loop g q s) = false
+  /\ (s_fired (accept_loop g q s) = true -> srv_done (accept_loop g q s) = true)
   /\ (srv_done (accept_loop g q s) = true
       \/ forall c x, get c (accept_loop g q s) = Some x -> c_ph x <> Queued).
 Proof.
-  intros ns g q. induction q as [|e q' IH]; intros s F Hf Hd.
+  intros ns g q. induction q as [|e q' IH]; intros s F Hd; rewrite accept_loop_unfold.
+  all: destruct (g_graceful g && s_fired s) eqn:Hgf.
+  1, 3: (* the signal has resolved: Ready (Ok ()) *)
+    apply andb_prop in Hgf; destruct Hgf as [Hg Hf];
+    (split; [| split]; [| reflexivity | left; reflexivity]);
+    intros q0; eapply full_finish;
+      [apply full_set_queue; exact F | exact Hd
+      | destruct (full_rel _ _ _ _ F) as [? ? ? gc ? ? ? ? ?]; apply gc; now rewrite Hf
+      | reflexivity].
+  all: assert (Hf : s_fired s = false)
+    by (destruct (s_fired s) eqn:Hf; auto; destruct (full_rel _ _ _ _ F) as [? ? ? ? gg ? ? ? ?];
+        rewrite (gg Hf) in Hgf; discriminate).
   - (* queue drained *)
-    cbn [accept_loop]. destruct (s_lost s) eqn:Hl.
+    destruct (s_lost s) eqn:Hl.
     + assert (F1 : Full ns g [] (emit OAcceptErr (set_queue [] s))).
       { apply full_emit_plain; auto. now apply full_set_queue. }
       assert (Hc : k_cause (mstate (emit OAcceptErr (set_queue [] s))) = true).
       { destruct (full_rel _ _ _ _ F1). apply g_cause0. cbn. rewrite Hl. now rewrite orb_true_r. }
       split; [| split].
-      * intros q0. eapply full_finish; eauto. intros _ H. cbn in H. congruence.
-      * exact Hf.
+      * intros q0. eapply full_finish; eauto; intros _ H; cbn in H; congruence.
+      * reflexivity.
       * left. reflexivity.
     + assert (F1 : Full ns g [] (set_srv SAccepting (set_queue [] s))).
       { apply full_set_accepting; auto. now apply full_set_queue. }
@@ -664,12 +749,12 @@ Proof.
         - unfold srv_done in *. cbn in H. discriminate.
         - cbn in H. congruence. }
       split; [| split]; auto.
-      intros q0. eapply full_queue_param; [exact F1 |]. intros c x Hg Hp. now apply NQ in Hg.
+      * intros q0. eapply full_queue_param; [exact F1 |]. intros c x Hg Hp. now apply NQ in Hg.
+      * cbn. intros H. congruence.
   - destruct e as [c |].
     2:{ (* a dead request: skipped *)
-        cbn [accept_loop]. apply IH; auto. eapply full_queue_param; [exact F |].
+        apply IH; auto. eapply full_queue_param; [exact F |].
         intros c x _ _ [H | H]; [discriminate | auto]. }
-    cbn [accept_loop].
     assert (Skip : (forall x, get c s = Some x -> c_ph x <> Queued) -> Full ns g q' s).
     { intros Hn. eapply full_queue_param; [exact F |]. intros c' x Hg Hp [H | H]; auto.
       inv H. now apply Hn in Hg. }
@@ -679,7 +764,7 @@ Proof.
     assert (HR := full_get _ _ _ _ _ _ F Hx).
     assert (Hfm : k_fired (mstate s) = false).
     { destruct (full_rel _ _ _ _ F). congruence. }
-    change (s_armed (emit (OAccept c) s)) with (s_armed s).
+    cbv zeta. change (s_armed (emit (OAccept c) s)) with (s_armed s).
     destruct (s_armed s) eqn:Ha.
     + (* the make-service fails: the connection is dropped with the accept loop *)
       assert (Hc : k_cause (mstate s) = true).
@@ -699,9 +784,9 @@ Proof.
         -- change (k_cause (mstate (emits [OAccept c] (modc c (w_ph Dropped) s))) = true).
            rewrite mstate_emits. exact Hc.
         -- intros _ H. cbn in H. congruence.
-      * exact Hf.
+      * reflexivity.
       * left. reflexivity.
-    + (* spawned *)
+    + (* spawned; its make-service may resolve the signal *)
       change (emit (OSpawn c) (modc c (spawn_ph g) (emit (OAccept c) s)))
         with (emits [OAccept c; OSpawn c] (modc c (spawn_ph g) s)).
       assert (F1 : Full ns g (QLive c :: q') (emits [OAccept c; OSpawn c] (modc c (spawn_ph g) s))).
@@ -709,10 +794,13 @@ Proof.
           [exact F | exact Hx | eapply conn_only_trans; apply conn_only_updc | reflexivity | | now apply rc_spawn
            | intros H; now apply spawn_ph_not_queued in H | auto | reflexivity].
         intros _. cbn. now rewrite Hfm. }
-      apply IH; auto.
-      eapply full_queue_param; [exact F1 |]. intros c' x' Hg Hq [H | H]; auto.
-      inv H. rewrite get_emits, get_modc_eq, Hx in Hg. cbn in Hg. inv Hg.
-      now apply spawn_ph_not_queued in Hq.
+      set (s2 := emits [OAccept c; OSpawn c] (modc c (spawn_ph g) s)) in *.
+      destruct (make_signal_same g s2) as (M1 & M2 & M3 & M4).
+      apply IH.
+      * apply full_make_signal. eapply full_queue_param; [exact F1 |]. intros c' x' Hg Hq [H | H]; auto.
+        inv H. subst s2. rewrite get_emits, get_modc_eq, Hx in Hg. cbn in Hg. inv Hg.
+        now apply spawn_ph_not_queued in Hq.
+      * unfold srv_done. rewrite M1. exact Hd.
 Qed.
 
 Lemma server_poll_done : forall g s, srv_done s = true -> server_poll g s = s.
@@ -725,35 +813,20 @@ Proof. intros g s. unfold server_poll, srv_done. destruct (s_srv s); auto; discr
 Lemma server_poll_spec : forall ns g s,
   Full ns g (s_queue s) s ->
   (forall q0, Full ns g q0 (server_poll g s))
-  /\ s_fired (server_poll g s) = s_fired s
-  /\ (s_fired s = true -> srv_done (server_poll g s) = true)
+  /\ (s_fired (server_poll g s) = true -> srv_done (server_poll g s) = true)
   /\ (srv_done (server_poll g s) = true
       \/ forall c x, get c (server_poll g s) = Some x -> c_ph x <> Queued).
 Proof.
   intros ns g s F.
-  assert (Done : srv_done s = true ->
-                 (forall q0, Full ns g q0 s) /\ s_fired s = s_fired s /\ (s_fired s = true -> srv_done s = true)
-                 /\ (srv_done s = true \/ forall c x, get c s = Some x -> c_ph x <> Queued)).
-  { intros Hd. refine (conj _ (conj _ (conj _ _))); auto. intros q0. eapply full_queue_param; [exact F |]. auto. }
-  assert (Live : srv_done s = false ->
-     (forall q0, Full ns g q0 (if g_graceful g && s_fired s then finish true s else accept_loop g (s_queue s) s))
-     /\ s_fired (if g_graceful g && s_fired s then finish true s else accept_loop g (s_queue s) s) = s_fired s
-     /\ (s_fired s = true -> srv_done (if g_graceful g && s_fired s then finish true s else accept_loop g (s_queue s) s) = true)
-     /\ (srv_done (if g_graceful g && s_fired s then finish true s else accept_loop g (s_queue s) s) = true
-         \/ forall c x, get c (if g_graceful g && s_fired s then finish true s else accept_loop g (s_queue s) s) = Some x -> c_ph x <> Queued)).
-  { intros Hd. destruct (g_graceful g && s_fired s) eqn:Hg.
-    - apply andb_prop in Hg. destruct Hg as [Hg Hf].
-      refine (conj _ (conj _ (conj _ _))); auto.
+  destruct (srv_done s) eqn:Hd.
+  - rewrite server_poll_done by auto. rewrite Hd.
+    refine (conj _ (conj _ _)); auto. intros q0. eapply full_queue_param; [exact F |]. auto.
+  - rewrite server_poll_live by auto. destruct (g_graceful g && s_fired s) eqn:Hg.
+    + apply andb_prop in Hg. destruct Hg as [Hg Hf].
+      refine (conj _ (conj _ _)); auto.
       intros q0. eapply full_finish; eauto.
       destruct (full_rel _ _ _ _ F). apply g_cause0. now rewrite Hf.
-    - assert (Hf : s_fired s = false).
-      { destruct (s_fired s) eqn:Hf; auto. destruct (full_rel _ _ _ _ F).
-        rewrite (g_grace0 Hf) in Hg. discriminate. }
-      destruct (accept_loop_spec ns g (s_queue s) s F Hf Hd) as (A & B & C).
-      refine (conj _ (conj _ (conj _ _))); auto; congruence. }
-  destruct (srv_done s) eqn:Hd.
-  - rewrite server_poll_done by auto. rewrite Hd. apply Done. reflexivity.
-  - rewrite server_poll_live by auto. apply Live. reflexivity.
+    + now apply accept_loop_spec.
 Qed.
 
 Lemma settle_spec : forall ns g s,
@@ -761,7 +834,7 @@ Lemma settle_spec : forall ns g s,
   (forall q0, Full ns g q0 (settle g s)) /\ Quiet g (settle g s).
 Proof.
   intros ns g s F. unfold settle.
-  destruct (server_poll_spec ns g s F) as (F1 & A1 & B1 & C1).
+  destruct (server_poll_spec ns g s F) as (F1 & B1 & C1).
   set (s1 := server_poll g s) in *.
   destruct (refuse_queued_spec ns g [] s1 (F1 [])) as (F2 & A2 & B2 & C2 & D2).
   set (s2 := refuse_queued s1) in *.
@@ -796,7 +869,7 @@ Lemma fq_conn : forall ns g q s c x f fy os,
   FQx ns g q c s -> get c s = Some x ->
   ConnOnly c fy (mstate s) (tracks (mstate s) os) ->
   mon_from chk09 (mstate s) os = true ->
-  (ns = true -> mon_from chk07 (mstate s) os = true) ->
+  (ns = true -> mon_from chk07_strict (mstate s) os = true) ->
   Rc g (srv_done s) (k_cause (mstate s)) (f x) (fy (k_conns (mstate s) c)) ->
   c_ph (f x) <> Queued ->
   (s_fired s = true -> c_cut (f x) = true -> c_cut x = true) ->
@@ -1088,7 +1161,7 @@ Proof.
   eapply quiet09_conn; eauto.
 Qed.
 
-Lemma quiet07_ok : forall g q s, FQ true g q s -> chk07 (mstate s) OQuiet = true.
+Lemma quiet07_ok : forall g q s, FQ true g q s -> chk07_strict (mstate s) OQuiet = true.
 Proof.
   intros g q s [F Q]. destruct F as [R [_ G7]]. destruct (G7 eq_refl) as [NS _]. destruct R. destruct Q. cbn.
   rewrite g_fired0. destruct (s_fired s) eqn:Hf; auto. cbn.
@@ -1124,9 +1197,6 @@ Proof.
 Qed.
 
 (* ------------------------------------------------------------------ the remaining events *)
-Lemma rc_cause_any : forall g sd cz x y, Rc g sd cz x y -> Rc g sd true x y.
-Proof. intros g sd cz x y []. constructor; auto. Qed.
-
 Lemma rc_new_conn : forall g sd cz k, Rc g sd cz (new_conn k) (cm_conn cm0).
 Proof. intros. constructor; cbn; auto; intros; try discriminate; lia. Qed.
 
@@ -1211,7 +1281,7 @@ Lemma full_cause : forall ns g q s s' o,
   Full ns g q s ->
   track (mstate s) o = mkMs (k_fired (mstate s)) true (k_server (mstate s)) (k_n (mstate s))
                             (k_conns (mstate s)) (k_snap (mstate s)) ->
-  chk09 (mstate s) o = true -> chk07 (mstate s) o = true ->
+  chk09 (mstate s) o = true -> chk07_strict (mstate s) o = true ->
   s_out s' = o :: s_out s -> s_srv s' = s_srv s -> s_fired s' = s_fired s -> s_conns s' = s_conns s ->
   (s_lost s = true -> s_lost s' = true) ->
   Full ns g q s'.
@@ -1237,20 +1307,7 @@ Lemma full_signal : forall ns g s,
 Proof.
   intros ns g s F. cbn [step]. destruct (g_graceful g && negb (s_fired s)) eqn:Hc; auto.
   apply andb_prop in Hc. destruct Hc as [Hg Hnf]. apply negb_true_iff in Hnf.
-  destruct F as [R [G9 G7]].
-  assert (Hm : mstate (emit OSignal (set_fired true s)) = track (mstate s) OSignal).
-  { rewrite mstate_emit. reflexivity. }
-  destruct R. split; [| split].
-  - rewrite Hm. constructor; cbn; auto.
-    + intros c x Hn. eapply rc_cause_any. apply g_conns0. exact Hn.
-    + intros _ c x Hn Hcut. specialize (g_conns0 c x Hn). rc_start g_conns0.
-      rewrite g_fired0, Hnf. unfold idle_cm. rewrite Rfault. destruct (c_faulty x) eqn:Hfa; cbn; [now rewrite !andb_false_r |].
-      specialize (Rbegun eq_refl). specialize (Rresp eq_refl). rewrite Hcut in Rbegun. cbn in Rbegun.
-      destruct (Nat.eqb_spec (m_begun (k_conns (mstate s) c)) (m_resp (k_conns (mstate s) c))); [lia |].
-      now rewrite !andb_false_r.
-  - apply good_emit; [eapply good_out; [| exact G9]; reflexivity | reflexivity].
-  - intros Hns. destruct (G7 Hns) as [NS G]. split; [exact NS |].
-    apply good_emit; [eapply good_out; [| exact G]; reflexivity | reflexivity].
+  now apply full_fire.
 Qed.
 
 (* ------------------------------------------------------------------ one event, all events *)
@@ -1271,6 +1328,7 @@ Proof.
     eapply full_cause with (s := s) (o := OLost); eauto; try reflexivity.
   - eapply full_cause with (s := s) (o := OMakeArm); eauto; try reflexivity.
   - now apply full_signal.
+  - destruct (g_graceful g); auto. now apply full_set_sigarm.
   - apply (Act (fun s0 => s0)). auto.
   - apply (Act (act_partial g c)). intros. now apply fq_act_partial.
   - apply (Act (act_req g c)). intros. now apply fq_act_req.
@@ -1311,12 +1369,30 @@ Proof.
   - exact G.
 Qed.
 
-Theorem model_mon_C07 : forall g evs, h2_preface_done g evs -> mon_C07 (trace (run g evs)) = true.
+(* the model satisfies the strict form (no driver at all is spawned after the signal) ... *)
+Theorem model_mon_C07_strict : forall g evs,
+  h2_preface_done g evs -> mon_from chk07_strict ms0 (trace (run g evs)) = true.
 Proof.
   intros g evs H. destruct (full_run true g evs init (full_init true g)) as [_ [_ G]].
   - intros _. exact H.
   - destruct (G eq_refl) as [_ G7]. exact G7.
 Qed.
+
+(* ... which implies the specification proper *)
+Lemma chk07_strict_refined : forall m o, chk07_strict m o = true -> chk07 m o = true.
+Proof.
+  intros m o H. destruct o; auto. unfold chk07, chk07_strict, chk07_gen in *.
+  rewrite andb_false_l, orb_false_r in H. rewrite H. reflexivity.
+Qed.
+
+Lemma mon_strict_refined : forall tr m, mon_from chk07_strict m tr = true -> mon_from chk07 m tr = true.
+Proof.
+  induction tr as [|o tr IH]; cbn; intros m H; auto.
+  apply andb_prop in H. destruct H as [H1 H2]. rewrite (chk07_strict_refined _ _ H1), (IH _ H2). reflexivity.
+Qed.
+
+Theorem model_mon_C07 : forall g evs, h2_preface_done g evs -> mon_C07 (trace (run g evs)) = true.
+Proof. intros g evs H. apply mon_strict_refined. now apply model_mon_C07_strict. Qed.
 
 (* ------------------------------------------------------------------ reading the monitors
    Facts about the monitors alone (any trace), used to restate what they demand as propositions
@@ -1356,7 +1432,7 @@ Proof.
 Qed.
 
 Lemma after_signal : forall tr m,
-  k_fired m = true -> mon_from chk07 m tr = true ->
+  k_fired m = true -> mon_from chk07_strict m tr = true ->
   (forall c, ~ In (OAccept c) tr) /\ (forall c, ~ In (OSpawn c) tr) /\ (forall r, In (OServer r) tr -> r = true).
 Proof.
   induction tr as [|o tr IH]; intros m Hf H.
@@ -1378,7 +1454,7 @@ Proof.
 Qed.
 
 Lemma told_once : forall c tr m,
-  mon_from chk07 m tr = true -> m_told (k_conns m c) <= 1 ->
+  mon_from chk07_strict m tr = true -> m_told (k_conns m c) <= 1 ->
   m_told (k_conns m c) + length (filter (is_told c) tr) <= 1.
 Proof.
   intros c. induction tr as [|o tr IH]; intros m H Hle; cbn; [lia |].
@@ -1432,7 +1508,7 @@ Proof.
     + now apply Nat.eqb_eq.
 Qed.
 
-Lemma chk07_quiet : forall m, chk07 m OQuiet = true -> k_fired m = true ->
+Lemma chk07_quiet : forall m, chk07_strict m OQuiet = true -> k_fired m = true ->
   (exists r, k_server m = Some r) /\ all_conns m quiet07 = true.
 Proof.
   intros m H Hf. cbn in H. rewrite Hf in H. cbn in H. apply andb_prop in H. destruct H as [H1 H2].
@@ -1453,7 +1529,7 @@ Theorem c07_stops_accepting_proof : forall g evs tr1 tr2,
   /\ (forall r, In (OServer r) tr2 -> r = true)
   /\ (forall a b, tr2 = a ++ OQuiet :: b -> exists r, In (OServer r) (tr1 ++ OSignal :: a)).
 Proof.
-  intros g evs tr1 tr2 Hh Ht. assert (M := model_mon_C07 g evs Hh). unfold mon_C07 in M. rewrite Ht in M.
+  intros g evs tr1 tr2 Hh Ht. assert (M := model_mon_C07_strict g evs Hh). rewrite Ht in M.
   apply mon_from_split in M. destruct M as (_ & _ & M).
   assert (Hf : k_fired (track (tracks ms0 tr1) OSignal) = true) by reflexivity.
   destruct (after_signal _ _ Hf M) as (A & B & C). repeat split; auto.
@@ -1470,7 +1546,7 @@ Theorem c07_every_driver_told_once_proof : forall g evs c,
   /\ forall a b, trace (run g evs) = a ++ OQuiet :: b -> In OSignal a ->
      c < k_n (tracks ms0 a) -> settled07 (k_conns (tracks ms0 a) c).
 Proof.
-  intros g evs c Hh. assert (M := model_mon_C07 g evs Hh). unfold mon_C07 in M. split.
+  intros g evs c Hh. assert (M := model_mon_C07_strict g evs Hh). split.
   - apply (told_once c) in M; cbn in *; lia.
   - intros a b Ht Hs Hc. rewrite Ht in M. apply mon_from_split in M. destruct M as (_ & M & _).
     apply chk07_quiet in M; [| now apply signal_fired]. destruct M as [_ M].
@@ -1503,8 +1579,10 @@ Qed.
 
 (* ------------------------------------------------------------------ where cause echoes come from
    OSignal / OLost / OMakeArm are emitted by the events ESignal / ELost / EMakeFail only. *)
-Definition causes (s : state) : list oev := filter is_cause (s_out s).
-Definition is_cause_ev (e : ev) : bool := match e with ESignal | ELost | EMakeFail => true | _ => false end.
+(* the cause echoes emitted so far, together with the armed in-loop signal *)
+Definition causes (s : state) : list oev * option nat := (filter is_cause (s_out s), s_sigarm s).
+Definition is_cause_ev (e : ev) : bool :=
+  match e with ESignal | EMakeSignal _ | ELost | EMakeFail => true | _ => false end.
 
 Ltac causes_tac :=
   repeat (match goal with |- context [match ?x with _ => _ end] => destruct x eqn:? end);
@@ -1528,24 +1606,26 @@ Lemma causes_fold : forall (f : state -> nat -> state) l s,
   (forall s c, causes (f s c) = causes s) -> causes (fold_left f l s) = causes s.
 Proof. induction l; cbn; intros; auto. rewrite IHl; auto. Qed.
 
-Lemma causes_accept_loop : forall g q s, causes (accept_loop g q s) = causes s.
+Lemma causes_accept_loop : forall g q s,
+  s_sigarm s = None -> causes (accept_loop g q s) = causes s.
 Proof.
-  intros g q. induction q as [|e q IH]; intros s; cbn [accept_loop].
+  intros g q. induction q as [|e q IH]; intros s Hn; rewrite accept_loop_unfold.
   - unfold causes. causes_tac.
-  - destruct e as [c|]; auto. destruct (get c s) as [x|]; auto. destruct (c_ph x); auto.
-    change (s_armed (emit (OAccept c) s)) with (s_armed s). destruct (s_armed s).
+  - destruct (g_graceful g && s_fired s); [reflexivity |].
+    destruct e as [c|]; auto. destruct (get c s) as [x|]; auto. destruct (c_ph x); auto.
+    cbv zeta. change (s_armed (emit (OAccept c) s)) with (s_armed s). destruct (s_armed s).
     + reflexivity.
-    + rewrite IH. reflexivity.
+    + unfold make_signal. cbn [s_sigarm emit modc set_conns]. rewrite Hn. rewrite IH; auto.
 Qed.
 
-Lemma causes_settle : forall g s, causes (settle g s) = causes s.
+Lemma causes_settle : forall g s, s_sigarm s = None -> causes (settle g s) = causes s.
 Proof.
-  intros. unfold settle, drive_all, refuse_queued, server_poll.
+  intros g s Hn. unfold settle, drive_all, refuse_queued, server_poll.
   rewrite causes_fold by apply causes_drive.
   assert (H : forall s', causes (if srv_done s' then fold_left refuse (seq 0 (length (s_conns s'))) s' else s') = causes s').
   { intros s'. destruct (srv_done s'); auto. apply causes_fold. apply causes_refuse. }
   rewrite H. destruct (s_srv s); auto.
-  all: destruct (g_graceful g && s_fired s); [reflexivity | apply causes_accept_loop].
+  all: destruct (g_graceful g && s_fired s); [reflexivity | now apply causes_accept_loop].
 Qed.
 
 Lemma causes_act_partial : forall g c s, causes (act_partial g c s) = causes s.
@@ -1583,26 +1663,34 @@ Proof. intros. unfold causes, act_disc. causes_tac. Qed.
 Lemma causes_act_garb : forall c s, causes (act_garb c s) = causes s.
 Proof. intros. unfold causes, act_garb. causes_tac. Qed.
 
-Lemma causes_step : forall g s e, is_cause_ev e = false -> causes (step g s e) = causes s.
+Lemma causes_none : forall s s', causes s' = causes s -> s_sigarm s = None -> s_sigarm s' = None.
+Proof. unfold causes. intros s s' H Hn. inv H. congruence. Qed.
+
+Lemma causes_step : forall g s e,
+  s_sigarm s = None -> is_cause_ev e = false -> causes (step g s e) = causes s.
 Proof.
-  intros g s e H. destruct e; try discriminate; cbn [step].
+  intros g s e Hn H.
+  assert (Hs := causes_settle g s Hn). assert (Hn' := causes_none _ _ Hs Hn).
+  destruct e; try discriminate; cbn [step].
   - unfold causes. causes_tac.
   - unfold causes. causes_tac.
-  - change (causes (emit OQuiet (settle g s))) with (causes (settle g s)). apply causes_settle.
-  - change (causes (act_partial g c (settle g s)) = causes s). now rewrite causes_act_partial, causes_settle.
-  - change (causes (act_req g c (settle g s)) = causes s). now rewrite causes_act_req, causes_settle.
-  - change (causes (act_step g c (settle g s)) = causes s). now rewrite causes_act_step, causes_settle.
-  - change (causes (act_disc c (settle g s)) = causes s). now rewrite causes_act_disc, causes_settle.
-  - change (causes (act_garb c (settle g s)) = causes s). now rewrite causes_act_garb, causes_settle.
-  - change (causes (act_herr g c (settle g s)) = causes s). now rewrite causes_act_herr, causes_settle.
+  - change (causes (emit OQuiet (settle g s))) with (causes (settle g s)). exact Hs.
+  - change (causes (act_partial g c (settle g s)) = causes s). now rewrite causes_act_partial.
+  - change (causes (act_req g c (settle g s)) = causes s). now rewrite causes_act_req.
+  - change (causes (act_step g c (settle g s)) = causes s). now rewrite causes_act_step.
+  - change (causes (act_disc c (settle g s)) = causes s). now rewrite causes_act_disc.
+  - change (causes (act_garb c (settle g s)) = causes s). now rewrite causes_act_garb.
+  - change (causes (act_herr g c (settle g s)) = causes s). now rewrite causes_act_herr.
 Qed.
 
 Lemma causes_run : forall g evs s,
-  existsb is_cause_ev evs = false -> causes (run_from g s evs) = causes s.
+  s_sigarm s = None -> existsb is_cause_ev evs = false -> causes (run_from g s evs) = causes s.
 Proof.
-  intros g evs. induction evs as [|e evs IH]; cbn; intros s H; auto.
+  intros g evs. induction evs as [|e evs IH]; cbn; intros s Hn H; auto.
   apply orb_false_iff in H. destruct H as [H1 H2].
-  change (causes (run_from g (step g s e) evs) = causes s). rewrite IH by auto. now apply causes_step.
+  assert (Hs := causes_step g s e Hn H1).
+  change (causes (run_from g (step g s e) evs) = causes s). rewrite IH; auto.
+  eapply causes_none; eauto.
 Qed.
 
 Lemma existsb_filter_nil : forall (A : Type) (p : A -> bool) l, filter p l = [] -> existsb p l = false.
@@ -1614,7 +1702,8 @@ Lemma no_cause_echo : forall g evs,
   existsb is_cause_ev evs = false -> existsb is_cause (trace (run g evs)) = false.
 Proof.
   intros g evs H. unfold trace.
-  assert (Hc := causes_run g evs init H). unfold causes in Hc. cbn in Hc.
+  assert (Hc := causes_run g evs init eq_refl H). unfold causes in Hc. cbn in Hc.
+  apply (f_equal fst) in Hc. cbn in Hc.
   apply existsb_filter_nil in Hc.
   destruct (existsb is_cause (rev (s_out (run g evs)))) eqn:E; auto.
   apply existsb_exists in E. destruct E as (o & Ho & Hp). apply in_rev in Ho.
@@ -1622,7 +1711,8 @@ Proof.
   unfold run in H0. congruence.
 Qed.
 
-Definition no_signal (evs : list ev) : Prop := ~ In ESignal evs.
+(* no event that resolves the shutdown signal: neither from outside nor from inside the accept loop *)
+Definition no_signal (evs : list ev) : Prop := ~ In ESignal evs /\ forall n, ~ In (EMakeSignal n) evs.
 Definition no_listener_loss (evs : list ev) : Prop := ~ In ELost evs.
 Definition no_make_failure (evs : list ev) : Prop := ~ In EMakeFail evs.
 
@@ -1630,7 +1720,8 @@ Lemma no_cause_events : forall evs,
   no_listener_loss evs -> no_make_failure evs -> no_signal evs -> existsb is_cause_ev evs = false.
 Proof.
   intros evs A B C. destruct (existsb is_cause_ev evs) eqn:E; auto.
-  apply existsb_exists in E. destruct E as (e & He & Hp). destruct e; try discriminate; contradiction.
+  apply existsb_exists in E. destruct E as (e & He & Hp). destruct C as [C1 C2].
+  destruct e; try discriminate; try contradiction. destruct (C2 _ He).
 Qed.
 
 Theorem c09_survives_events : forall g evs,
@@ -1660,7 +1751,7 @@ Lemma snap_track : forall m o c, k_fired m = true -> k_snap (track m o) c = k_sn
 Proof. intros m o c H. destruct o; cbn; auto. now rewrite H. Qed.
 
 Lemma idle_no_handler : forall c tr m,
-  k_fired m = true -> idle_cm (k_snap m c) = true -> mon_from chk07 m tr = true ->
+  k_fired m = true -> idle_cm (k_snap m c) = true -> mon_from chk07_strict m tr = true ->
   ~ In (OHandler c) tr.
 Proof.
   intros c. induction tr as [|o tr IH]; intros m Hf Hi H; [intros [] |].
@@ -1685,7 +1776,7 @@ Theorem c07_inflight_complete_proof : forall g evs,
 Proof.
   intros g evs Hh. split.
   - intros a b c. apply (c07_every_driver_told_once_proof g evs c Hh).
-  - intros tr1 tr2 c Ht Hn Hi. assert (M := model_mon_C07 g evs Hh). unfold mon_C07 in M. rewrite Ht in M.
+  - intros tr1 tr2 c Ht Hn Hi. assert (M := model_mon_C07_strict g evs Hh). rewrite Ht in M.
     apply mon_from_split in M. destruct M as (_ & _ & M).
     eapply idle_no_handler; [| | exact M]; [reflexivity |].
     cbn. destruct (k_fired (tracks ms0 tr1)) eqn:Hf; auto.
